@@ -31,3 +31,10 @@ Print Assumptions C12_erase_removes_all_copies.
 Theorem C12_exe_does_not_modify : forall dflt id vs, fst (cstep dflt (SXM id) vs) = vs /\ fst (cstep dflt (SXC id) vs) = vs.
 Proof. intros; split; reflexivity. Qed.
 Print Assumptions C12_exe_does_not_modify.
+
+(* consume_all: the loop of set_impl::local_consume_all (take the first element, erase that one element, call back) hands every
+   element - every copy of a multiset key - to the callback exactly once and leaves the local store empty; the counts of
+   callback calls per key and the sizes afterwards are compared with the real set / multiset on every run *)
+Theorem C12_consume_all_exactly_once : forall store, consume_all store = ([], store).
+Proof. exact consume_all_exactly_once. Qed.
+Print Assumptions C12_consume_all_exactly_once.
